@@ -22,7 +22,8 @@ BOUNDS = {"quick": "tables 2.7, 3.6, 3.9, 3.11, 3.12, 3.13; every defined opcode
                    "(context 6); operand 0..5 within validity (0..2 for variable-pop opcodes under the stack-simulating formats); windows of <= 5 instructions + cache slots; header/xasm via disco on "
                    "one window per table",
           "thorough": "all tables; formats classic, bytes, extended, extended-bytes, each with contexts 0 and 2; operand 0..9"}
-OUTSIDE = ["whole real programs: totality is claimed over the bounded instruction windows only",
+OUTSIDE = ["line-number column of SET_LINENO-era (< 2.3) listings (taken from SET_LINENO operands, not from starts_line)",
+           "whole real programs: totality is claimed over the bounded instruction windows only",
            "show_source (reads source files)", "the click CLI wrapper (pydisasm)", "operands CPython's own dis rejects"]
 ASSUMPTIONS = ["CrossHair/z3 soundness", "R-src dis.py (operand validity)", "CrossHair's models of str formatting on realised values"]
 FUNCS = ["xdis.disasm.disco", "xdis.disasm.disco_loop", "xdis.disasm.disco_loop_asm_format", "xdis.disasm.show_module_header",
@@ -308,12 +309,103 @@ def disco_ob(tname, opc, fmt, tier):
               bound="operand 0..3, timestamp 1..3", timeout=90, oracle="total + clean")
 
 
+def corpus_files_ob(fmt, group="rest"):
+    """the public entry point disassemble_file on every file of the repository's corpus (1.0-3.12, PyPy): total, clean,
+    and for classic/bytes faithful to the instruction stream (concrete; auxiliary to the symbolic windows)"""
+    import glob
+    import os
+    from collections import deque
+
+    def problems():
+        import xdis.load as LD
+        from xdis.bytecode import Bytecode
+        from xdis.codetype.base import iscode
+        from xdis.disasm import disassemble_file, get_opcode
+        bad = []
+        n = 0
+        for path in sorted(glob.glob("/repo/test/bytecode_*/*.pyc")):
+            if "dropbox" in path:
+                continue
+            if ("bytecode_3.2pypy" in path) != (group == "3.2pypy"):
+                continue
+            out = io.StringIO()
+            cap_out, cap_err = io.StringIO(), io.StringIO()
+            saved = sys.stdout, sys.stderr
+            sys.stdout, sys.stderr = cap_out, cap_err
+            try:
+                try:
+                    r = disassemble_file(path, out, fmt)
+                except ImportError:
+                    continue      # files load_module itself refuses (interim magics etc.) are not 'valid bytecode files'
+                except Exception as e:
+                    bad.append("%s [%s]: raises %s: %s" % (os.path.relpath(path, "/repo/test"), fmt, type(e).__name__, str(e)[:100]))
+                    continue
+                finally:
+                    sys.stdout, sys.stderr = saved
+                n += 1
+                if cap_out.getvalue() or cap_err.getvalue():
+                    bad.append("%s [%s]: wrote to stdout/stderr: %r" % (os.path.relpath(path, "/repo/test"), fmt, (cap_out.getvalue() + cap_err.getvalue())[:80]))
+                    continue
+                if fmt in ("classic", "bytes"):
+                    co, vt, is_pypy = r[1], r[2], r[5]
+                    if not iscode(co) or tuple(vt[:2]) < (2, 3):
+                        continue   # SET_LINENO-era listings take their line numbers from SET_LINENO operands: totality/cleanliness only
+                    opc = get_opcode(vt, is_pypy)
+                    stream = []
+                    queue = deque([co])
+                    while queue:
+                        c = queue.popleft()
+                        sys.stdout, sys.stderr = cap_out, cap_err
+                        try:
+                            ins = list(Bytecode(c, opc, dup_lines=True))
+                        finally:
+                            sys.stdout, sys.stderr = saved
+                        # old bytecode sets line numbers with SET_LINENO: the listing shows that number on the next instruction
+                        setl = None
+                        for i in ins:
+                            if setl is not None:
+                                i = i._replace(starts_line=setl)
+                                setl = None
+                            if i.opname == "SET_LINENO":
+                                setl = i.argval
+                            stream.append(i)
+                        for k in c.co_consts:
+                            if iscode(k):
+                                queue.append(k)
+                    text = "\n".join(l for l in out.getvalue().split("\n")
+                                     if not l.startswith("ExceptionTable") and not re.match(r"^\s+\d+ to \d+ -> \d+ \[\d+\]", l))
+                    try:
+                        check_listing(text, stream, fmt, opc)
+                    except AssertionError as e:
+                        bad.append("%s [%s]: %s" % (os.path.relpath(path, "/repo/test"), fmt, str(e)[:160]))
+                    except Exception as e:
+                        bad.append("%s [%s]: listing not parsable: %s" % (os.path.relpath(path, "/repo/test"), fmt, str(e)[:100]))
+            finally:
+                sys.stdout, sys.stderr = saved
+        return bad, n
+
+    def q():
+        bad, n = problems()
+        if bad:
+            return "refuted", "%d of %d files" % (len(bad), n), {"first": bad[0][:70]}, 0, 0.0
+        return "confirmed", "%d files" % n, None, 0, 0.0
+
+    def replay(first):
+        bad, n = problems()
+        return ("%d corpus files, first: %s" % (len(bad), bad[0])) if bad else None
+
+    return Ob(id="C12.corpus.%s.%s" % (fmt, group), prop="C12", params=[], body=None, direct=q, replay=replay, funcs=FUNCS + ["xdis.disasm.disassemble_file"],
+              region="corpus.%s.%s" % (fmt, group), skeleton="disassemble_file(<every corpus file>, format=%s)" % fmt, bound="every loadable corpus file",
+              timeout=900, oracle="total + clean (+ listing parsed back for classic/bytes); concrete")
+
+
 C12_TABLES = ["opcode_27", "opcode_36", "opcode_39", "opcode_311", "opcode_312", "opcode_313"]
 
 
 def generate(tier, seed):
     from props.common import opc_tables
     tabs = opc_tables()
+    extra = [corpus_files_ob(f, g) for f in ("classic", "bytes", "extended", "extended-bytes", "xasm", "header") for g in ("rest", "3.2pypy")]
     names = C12_TABLES if tier == "quick" else sorted(tabs)
     obs = []
     for tname in names:
@@ -352,4 +444,4 @@ def generate(tier, seed):
                     obs.append(ext_ob(tname, opc, k, fmt, tier))
         for fmt in ("classic", "xasm", "extended"):
             obs.append(disco_ob(tname, opc, fmt, tier))
-    return obs
+    return obs + extra
